@@ -348,6 +348,9 @@ fn check_one(ctx: &Ctx, sub: &str, keybase: &str, src: &str, syn: Syn, l: &mut L
 }
 
 pub fn run(ctx: &Ctx) {
+    // the watchdog's clock also covers the harness's own oracle work (reference models, DOM enumeration);
+    // the limit is generous so that machine load cannot turn a slow case into a verdict
+    ctx.hang_limit_s.store(300, std::sync::atomic::Ordering::Relaxed);
     let corp = corpus::load();
     let sub = "corpus";
     par(
@@ -457,6 +460,37 @@ pub fn run(ctx: &Ctx) {
     );
     ctx.bound(sub, &format!("every sequence of 1..{} top-level statements over a 19-statement alphabet (imports, body-less at-rules, invisible rules, comments, rules) and every sequence of 1..{} children over a 12-child alphabet inside one rule", tl, tl), true);
     ctx.sample(sub, json!({"input": "@import url(x.css); %unused{p:q} a{b:c}"}));
+    // ---- plain CSS functions whose names are case variants of Sass functions; numbers that print as zero ----
+    {
+        let sub = "css-function-names-and-tiny-numbers";
+        let mut srcs: Vec<String> = Vec::new();
+        for f in crate::gen::builtins::GLOBAL_FNS {
+            let up = f.to_uppercase();
+            let cap: String = f.chars().enumerate().map(|(k, c)| if k == 0 { c.to_ascii_uppercase() } else { c }).collect();
+            for name in [up, cap] {
+                if name != *f {
+                    srcs.push(format!("a{{b: {}(1)}}", name));
+                    srcs.push(format!("a{{b: {}(red, 10%)}}", name));
+                }
+            }
+        }
+        for v in ["-0.00000000001", "-0.00000000001px", "0.00000000001", "-0.0000000000499em", "-0.00000000005", "(0.3 - 0.2 - 0.1) * 1em", "(0.1 + 0.2 - 0.3) * -1px", "-1e-12", "1px -0.00000000001px", "-0.00000000001 -0.00000000001", "0 - 0.000000000001"] {
+            srcs.push(format!("a{{b: {}; c: d}}", v));
+            srcs.push(format!("a{{margin: 1px {} 2px}}", v));
+        }
+        par(
+            ctx,
+            sub,
+            srcs.len() as u64,
+            |i| json!({"input": srcs[i as usize]}),
+            |i, l| {
+                let src = &srcs[i as usize];
+                check_one(ctx, sub, &format!("wf:misc:{}", src), src, Syn::Scss, l);
+            },
+        );
+        ctx.bound(sub, "upper-case and capitalised spellings of every global Sass function name used as a plain CSS function (2 argument shapes), and 11 numbers that round to zero in 2 positions: the output re-compiles as CSS and SCSS to the same tree in both styles", true);
+        ctx.sample(sub, json!({"input": "a{b: LIGHTEN(red, 10%)}"}));
+    }
     // ---- @supports conditions: grouping survives serialization ---------------------------------------
     {
         let sub = "supports-conditions";
